@@ -74,15 +74,15 @@ def negative_configs(tier):
         ("neg_nested4", dict(chain, MaxNested=4), None, [], {"ErrDepthSound", "DepthIff"}),
         ("neg_nested6", dict(chain, MaxNested=6), None, [], {"Equiv", "Bounded", "DepthIff"}),
     ]
-    if tier != "quick":
-        neg += [
-            ("neg_cwd", dict(res, ResolveAgainst="cwd", EnvChdir=True), None, [],
-             {"Equiv", "ErrMissingSound", "MissingIff", "PrefixOK"}),
-            ("neg_includer", dict(res, ResolveAgainst="includer"), None, [],
-             {"Equiv", "ErrMissingSound", "MissingIff", "PrefixOK"}),
-            ("neg_unfair", dict(MaxFiles=2, MaxLines=1, MaxBack=0, MaxMissing=0), "SpecUnfair", ["Halts"],
-             {"temporal"}),
-        ]
+    neg += [
+        ("neg_cwd", dict(res, ResolveAgainst="cwd", EnvChdir=True), None, [],
+         {"Equiv", "ErrMissingSound", "MissingIff", "PrefixOK"}),
+        ("neg_includer", dict(res, ResolveAgainst="includer"), None, [],
+         {"Equiv", "ErrMissingSound", "MissingIff", "PrefixOK"}),
+        ("neg_unfair", dict(MaxFiles=2, MaxLines=1, MaxBack=0, MaxMissing=0), "SpecUnfair", ["Halts"], {"temporal"}),
+        ("neg_fair_next", dict(MaxFiles=2, MaxLines=1, MaxBack=0, MaxMissing=0, Dirs={0, 1}, EnvChdir=True),
+         "SpecNextFair", ["Halts"], {"temporal"}),
+    ]
     return neg
 
 
@@ -98,17 +98,33 @@ def constants(over):
     return c
 
 
+def tlc_run(cfg, tag, workers, timeout):
+    """tlc.run, reading TLC 1.8's "Temporal property X was violated" as a violated property"""
+    try:
+        return tlc.run("Includes", cfg, tag=tag, workers=workers, timeout=timeout)
+    except tlc.TLCFailure as ex:
+        msg = str(ex)
+        if "Error: Temporal property" in msg and "was violated" in msg and msg.count("Error:") == 1:
+            r = tlc.Result()
+            r.out = msg
+            tlc.parse_output(r)
+            r.rc = 13
+            r.violated = "temporal"
+            return r
+        raise
+
+
 def run_model(tag, over, live, workers, timeout):
     c = constants(over)
     cfg = tlc.cfg_text(constants=c, invariants=SEPARATE_INVS, properties=["Halts"] if live else [],
                        spec="Spec" if live else None)
-    return tlc.run("Includes", cfg, tag="c15_" + tag, workers=workers, timeout=timeout)
+    return tlc_run(cfg, "c15_" + tag, workers, timeout)
 
 
 def run_negative(tag, over, spec, props, workers, timeout):
     c = constants(over)
     cfg = tlc.cfg_text(constants=c, invariants=SEPARATE_INVS, properties=props, spec=spec)
-    return tlc.run("Includes", cfg, tag="c15_" + tag, workers=workers, timeout=timeout)
+    return tlc_run(cfg, "c15_" + tag, workers, timeout)
 
 
 # ------------------------------------------------------------------------------------------- (G) graphs
@@ -130,24 +146,34 @@ def batches(tier):
     ]
 
 
-def emit_graphs(ck, tier, seed):
-    out = []
-    for j, (tag, over, n) in enumerate(batches(tier)):
-        c = dict(BASE)
-        c.update(over)
-        cfg = tlc.cfg_text(constants=c, invariants=["Emit"] + SEPARATE_INVS)
-        r = tlc.run("Includes", cfg, tag="c15_emit_" + tag, mode="simulate", simulate="num=%d" % n, depth=1500,
-                    seed=seed * 100 + j + 1, timeout=3000, workers=1)
-        if r.violated:
-            raise common.MachineryFailure("Includes invariant %s violated while emitting graphs" % r.violated)
-        ck.add_tlc("emit_" + tag, r)
-        gs = [g for g in r.prints if isinstance(g, dict) and "fs" in g]
-        if len(gs) < n * 0.8:
-            raise common.MachineryFailure("TLC emitted %d graphs in batch %s, wanted %d" % (len(gs), tag, n))
-        for g in gs:
-            g["batch"] = tag
-        out += gs
-    return out
+def emit_batch(tag, over, n, seed):
+    c = dict(BASE)
+    c.update(over)
+    cfg = tlc.cfg_text(constants=c, invariants=["Emit"] + SEPARATE_INVS)
+    r = tlc.run("Includes", cfg, tag="c15_emit_" + tag, mode="simulate", simulate="num=%d" % n, depth=1500,
+                seed=seed, timeout=3000, workers=1)
+    if r.violated:
+        raise common.MachineryFailure("Includes invariant %s violated while emitting graphs" % r.violated)
+    gs = [g for g in r.prints if isinstance(g, dict) and "fs" in g]
+    if len(gs) < n * 0.8:
+        raise common.MachineryFailure("TLC emitted %d graphs in batch %s, wanted %d" % (len(gs), tag, n))
+    for g in gs:
+        g["batch"] = tag
+    return r, gs
+
+
+def submit_emission(ex, tier, seed, per_run=2500):
+    futs = []
+    j = 0
+    for tag, over, n in batches(tier):
+        part = 0
+        while n > 0:
+            m = min(n, per_run)
+            j += 1
+            futs.append(("emit_%s_%d" % (tag, part), ex.submit(emit_batch, "%s_%d" % (tag, part), over, m, seed * 1000 + j)))
+            n -= m
+            part += 1
+    return futs
 
 
 # ------------------------------------------------------------------------------------------- documents
@@ -538,13 +564,13 @@ def check_keep(case, tmp, loads0, public):
         kind, d = classify(fn)
         info = {"api": api, "keep_text": text.replace(tmp, PLACE)}
         if kind != "ok":
-            found.append(("C15|noexpand|raised|%s|%s" % (type(d).__name__, culprit()),
+            found.append(("C15|noexpand|%s|raised|%s" % (culprit(), type(d).__name__),
                           "expand_includes=False: %s raised %s on a document with INCLUDE directives: %s" % (
                               api, type(d).__name__, str(d)[:100].replace(tmp, PLACE)), info))
             continue
         got = collect_includes(d, [])
         if not same(got):
-            found.append(("C15|noexpand|include-list-differs|%s" % culprit(),
+            found.append(("C15|noexpand|%s|include-list-differs" % culprit(),
                           "expand_includes=False: include values %s, written names %s" % (
                               [x.replace(tmp, PLACE) for x in got][:8], keep["names"][:8]), info))
             continue
@@ -579,16 +605,19 @@ def _pool_init(tmp):
 
 
 def _pool_job(job):
-    case, public, keep_public = job
-    tmp = tempfile.mkdtemp(prefix="g%05d_" % case["idx"], dir=_POOL_TMP)
+    g, hist, cseed, rseed, nl, idx, public, keep_public = job
+    tmp = tempfile.mkdtemp(prefix="g%05d_" % idx, dir=_POOL_TMP)
     try:
+        case = build_case(g, hist, cseed, rseed, nl, idx)
         ev, found = run_case(case, tmp, public=public, keep_public=keep_public)
+        found = [(sig, what, replay_case_of(case, extra) if sig not in ("SKIP",) else None) for sig, what, extra in found]
+        sample = {"graph": {k: g[k] for k in ("fs", "dir", "entry", "allowed", "flat")}, "files": case["files"]} if idx < 2 else None
     except Exception as ex:  # noqa: BLE001
         import traceback
-        return case["idx"], 0, [("MACHINERY", traceback.format_exc()[-1500:] + str(ex), None)]
+        return idx, 0, [("MACHINERY", traceback.format_exc()[-1500:] + str(ex), None)], None
     finally:
         shutil.rmtree(tmp, ignore_errors=True)
-    return case["idx"], ev, found
+    return idx, ev, found, sample
 
 
 def replay_case_of(case, extra):
@@ -611,7 +640,7 @@ def check_reader_includes(ck, hs, seed):
     try:
         os.chdir(tmp)
         for j, h in enumerate(hs):
-            conc = concretise.Concretiser(seed * 1000 + j, no_multiline=True)
+            conc = concretise.Concretiser(seed * 1000 + j, no_multiline=True, avoid_quote='"')   # (quoting: C04)
             root = docs.root_type(h)
             text, _ = concretise.assemble(conc.tokens(concretise.with_root(h, root)))
             exp = conc.expected(h[-1]["post"])
@@ -690,53 +719,59 @@ def run(tier):
     tmp = tempfile.mkdtemp(prefix="c15_", dir="/tmp")
     # (the worker processes are forked before any thread exists)
     pool = multiprocessing.get_context("fork").Pool(14, initializer=_pool_init, initargs=(tmp,))
-    # (M) and the negative configurations run in the background while the graphs are replayed
-    ex = concurrent.futures.ThreadPoolExecutor(max_workers=3 if quick else 4)
-    mw = 4
-    mt = 600 if quick else 6000
+    # TLC runs in background threads: graph emission and documents first, then (M) and the negative
+    # configurations, which go on while the graphs are replayed
+    ex = concurrent.futures.ThreadPoolExecutor(max_workers=8)
+    mw = 4 if quick else 6
+    mt = 900 if quick else 9000
+    ndocs = 260 if quick else 3000
+    fut_e = submit_emission(ex, tier, seed)
+    fut_d = ex.submit(docs.walks, ndocs, max_steps=45, step_posts=False, seed=seed + 15, tag="c15_docs", ck=ck, timeout=3000)
     fut_m = [(tag, ex.submit(run_model, tag, over, live, mw, mt)) for tag, over, live in model_configs(tier)]
     fut_n = [(tag, want, ex.submit(run_negative, tag, over, spec, props, 2, mt))
              for tag, over, spec, props, want in negative_configs(tier)]
     stats = {"ok": 0, "depth": 0, "missing": 0, "depth+missing": 0, "skipped_docs": 0}
+    graphs = []
     try:
-        graphs = emit_graphs(ck, tier, seed)
-        ndocs = 260 if quick else 3000
-        hs = docs.walks(ndocs, max_steps=45, step_posts=False, seed=seed + 15, tag="c15_docs", ck=ck, timeout=3000)
+        for tag, f in fut_e:
+            r, gs = f.result()
+            ck.add_tlc(tag, r)
+            graphs += gs
+        hs = fut_d.result()
         usable = [h for h in hs if len(include_free(h)) >= 8]
         if len(usable) < ndocs * 0.3:
             raise common.MachineryFailure("only %d usable documents" % len(usable))
         rng = random.Random(seed * 7919 + 15)
-        cases = []
-        npublic = len(graphs) if quick else 2500
+        # (the public functions build a Parser per call, 165 ms: every third graph in the quick tier, the
+        #  first 3000 and every tenth afterwards in the thorough tier; the others go through the same
+        #  Parser methods - parse_file, load, parse - on a reused Parser)
+        jobs = []
         for idx, g in enumerate(graphs):
             h = usable[rng.randrange(len(usable))]
             nl = "\r\n" if rng.random() < 0.4 else "\n"
-            cases.append(build_case(g, h, seed * 100000 + idx, seed * 100003 + idx, nl, idx))
-        jobs = [(c, i < npublic or i % 10 == 0, i % 8 == 0) for i, c in enumerate(cases)]
-        by_idx = {c["idx"]: c for c in cases}
+            public = (idx % 3 == 0) if quick else (idx < 3000 or idx % 10 == 0)
+            jobs.append((g, h, seed * 100000 + idx, seed * 100003 + idx, nl, idx, public, idx % 8 == 0))
         with pool:
-            for idx, ev, found in pool.imap_unordered(_pool_job, jobs, chunksize=4):
-                case = by_idx[idx]
-                g = case["graph"]
+            for idx, ev, found, sample in pool.imap_unordered(_pool_job, jobs, chunksize=4):
+                g = graphs[idx]
                 ck.count(ev)
+                if sample:
+                    ck.sample(sample)
                 if ev:
                     stats["+".join(sorted(g["allowed"])) or "ok"] += 1
                     ck.nontrivial(json.dumps([g["fs"], g["dir"], g["entry"], g["cwd0"]], sort_keys=True))
-                for sig, what, extra in found:
+                for sig, what, rcase in found:
                     if sig == "MACHINERY":
                         raise common.MachineryFailure(what)
                     if sig == "SKIP":
                         stats["skipped_docs"] += 1
                         continue
-                    ck.violation(sig, what, replay_case_of(case, extra))
-        if stats["skipped_docs"] > 0.2 * len(cases):
-            raise common.MachineryFailure("%d of %d documents rejected by the loader" % (stats["skipped_docs"], len(cases)))
+                    ck.violation(sig, what, rcase)
+        if stats["skipped_docs"] > 0.2 * len(jobs):
+            raise common.MachineryFailure("%d of %d documents rejected by the loader" % (stats["skipped_docs"], len(jobs)))
         for want in ("ok", "depth", "missing"):
             if stats[want] < 10:
                 raise common.MachineryFailure("vacuous: only %d graphs of class %s" % (stats[want], want))
-        for c in cases[:2]:
-            ck.sample({"graph": {k: c["graph"][k] for k in ("fs", "dir", "entry", "allowed", "flat")},
-                       "files": c["files"]})
         # directives as data on the Reader side
         nreader = check_reader_includes(ck, [h for h in hs if has_include(h)][:60 if quick else 1500], seed)
         # ---- collect the model-checking results
